@@ -334,8 +334,15 @@ Section AgreeProof.
   Proof. apply (mga_to_mg_ok k p HM w). Qed.
   Lemma ag_signed t : can (mga_of_signed k M t) /\ V (mga_of_signed k M t) = mgi_of_signed k p t.
   Proof.
-    destruct (mga_ctor_ok k p HM) as (_ & _ & _ & H & _). destruct (H t) as [C1 V1]. split; [exact C1|]. rewrite V1.
-    destruct (mgi_ctor_ok k p Hp) as (_ & H2 & _). symmetry. apply H2.
+    destruct (mga_ctor_ok k p HM) as (_ & _ & _ & H & _). destruct (H t) as [C1 _]. split; [exact C1|].
+    unfold mga_of_signed, mgi_of_signed. cbv zeta. cbn [g_p mga_init_module].
+    match goal with |- context [mga_to_mg k _ ?v] => destruct (mga_to_mg_ok k p HM v) as [_ V1]; rewrite V1 end.
+    pose proof (mod_can k p Hp (abs_ru k t)) as Hr. unfold canon in Hr. set (v := abs_ru k t mod p) in *.
+    destruct (t <? 0).
+    - unfold rm_neg. destruct (Z.eqb_spec v 0) as [->|N].
+      + rewrite Z.sub_0_r. rewrite (Z.mod_small p B) by lia. apply Z.mod_same. lia.
+      + rewrite (Z.mod_small (p - v) B) by lia. apply Z.mod_small. lia.
+    - apply Z.mod_small. exact Hr.
   Qed.
 End AgreeProof.
 
@@ -460,3 +467,17 @@ Qed.
 
 Example Stored_form_composite_modulus : RecMod 0 (3 * 3 * 5 * 7).       (* the hypotheses do not ask for a prime *)
 Proof. split; [reflexivity | split; [lia | reflexivity]]. Qed.
+
+(* HISTORY: the signed native constructors before fix-7 negated in the native type; for the most negative value of a 64-bit type
+   the element was 672319 instead of (-2^63) mod 1000003 = 324658 (what /repo returned before the repair) *)
+Lemma signed_ctor_before_fix7_refuted :
+  let p := 1000003 in let b := - 2 ^ 63 in
+  (p - abs_in_type_old 1 64 b mod p) mod p = 672319 /\ b mod p = 324658 /\ abs_ru 1 b = 2 ^ 63.
+Proof. vm_compute. repeat split. Qed.
+
+(* the unit hypothesis of the conditional inverse / division statements is satisfiable, and so is its negation for a composite modulus *)
+Example unit_hyps_satisfiable : canon 101 5 /\ Z.gcd 5 101 = 1 /\ RecMod 0 101.
+Proof. split; [unfold canon; lia|]. split; [reflexivity|]. split; [reflexivity | split; [lia | reflexivity]]. Qed.
+Example nonunit_hyps_satisfiable : canon 9 3 /\ Z.gcd 3 9 <> 1 /\ RecMod 0 9.
+Proof. split; [unfold canon; lia|]. split; [vm_compute; discriminate|]. split; [reflexivity | split; [lia | reflexivity]]. Qed.
+
